@@ -356,7 +356,16 @@ fn example(r: &mut Rng) -> Yaml {
         let text = format!("{}{}", "x".repeat(pad), unit.repeat(90 + r.below(60)));
         return if r.chance(60) { map1y(*r.pick(&["s", "a", "zz"]), gen::ys(&text)) } else { gen::ys(&text) };
     }
-    match r.below(14) {
+    match r.below(17) {
+        // a `<<` key is an ordinary field of the example document (YAML merge keys are resolved by
+        // the YAML reader, if at all, never by validate() on its own)
+        14 => map1y("<<", gen::gen_doc(r)),
+        15 => {
+            let mut m = match gen::gen_doc(r) { Yaml::Mapping(m) => m, _ => serde_yaml::Mapping::new() };
+            m.insert(gen::ys("<<"), if r.chance(50) { gen::gen_doc(r) } else { Yaml::Sequence(vec![gen::gen_doc(r), gen::gen_doc(r)]) });
+            Yaml::Mapping(m)
+        }
+        16 => map1y(*r.pick(&["o", "oa", "a"]), map1y("<<", gen::gen_doc(r))),
         // a tagged mapping is still a mapping (`as_mapping` looks through tags); a tagged scalar is not
         12 => tagged(gen::gen_doc(r)),
         13 => if r.chance(50) { tagged(gen::ys("text")) } else { tagged(tagged(gen::gen_doc(r))) },
@@ -424,6 +433,7 @@ pub fn written_top_keys(c: &CaseReq) -> Vec<String> {
 }
 
 pub fn run_c16(ctx: &mut Ctx, _known: &Known) {
+    c16_fixed_pairs(ctx);
     let n = budget(ctx, 2000, 40000);
     for i in 0..n {
         let mut r = case_rng(ctx, i);
@@ -485,6 +495,71 @@ pub fn run_c16(ctx: &mut Ctx, _known: &Known) {
     }
 }
 
+/// Fixed pairs of documents that differ only in fields no predicate addresses — inside a nested
+/// object (also: an empty object against one holding only unaddressed fields), and top-level fields
+/// whose NAME is the text of a dotted / indexed key of the rule — in every document representation,
+/// plain and with every switch combination. The two documents of a pair get the same verdict.
+fn c16_fixed_pairs(ctx: &mut Ctx) {
+    use std::collections::HashMap;
+    let rules = [
+        ("proc:\n      name: evil", vec!["A", "not A"]),
+        ("proc:\n      name: evil\n    user: root", vec!["A", "not A"]),
+        ("net.dst: x", vec!["A", "not A"]),
+        ("args[1]: x", vec!["A", "not A"]),
+        ("net.dst: x\n    host: ws1", vec!["A", "not A"]),
+        ("zz: q", vec!["A or int(net.port) > 5", "not (A or int(net.port) > 5)"]),
+        ("o:\n      p:\n        q: x", vec!["A", "not A"]),
+    ];
+    let pairs = [
+        ("{proc: {}}", "{proc: {pid: 1}}"),
+        ("{proc: {name: evil}}", "{proc: {name: evil, pid: 1}}"),
+        ("{proc: [{}]}", "{proc: [{pid: 1}]}"),
+        ("{proc: [{}, {name: evil}]}", "{proc: [{pid: 2}, {name: evil, x: 1}]}"),
+        ("{proc: {}, user: root}", "{proc: {pid: 1}, user: root}"),
+        ("{net: {dst: x}}", "{net: {dst: x}, net.dst: elsewhere}"),
+        ("{host: ws1}", "{host: ws1, net.dst: x}"),
+        ("{net: {dst: y}}", "{net: {dst: y}, net.dst: x}"),
+        ("{args: [w, x]}", "{args: [w, x], 'args[1]': y}"),
+        ("{args: [w, y]}", "{args: [w, y], 'args[1]': x}"),
+        ("{net: {port: 3}}", "{net: {port: 3}, net.port: 9}"),
+        ("{net: {port: 9}}", "{net: {port: 9}, net.port: 3}"),
+        ("{o: {p: {}}}", "{o: {p: {r: 1}}}"),
+        ("{o: {}}", "{o: {r: 1}}"),
+        ("{o: {p: {q: x}}}", "{o: {p: {q: x, r: 1}, s: 2}, o.p.q: y}"),
+    ];
+    for (body, conds) in rules.iter() {
+        for cond in conds {
+            let text = format!("detection:\n  A:\n    {}\n  condition: {}\ntrue_positives: []\ntrue_negatives: []\n", body, cond);
+            let base = match tau_engine::Rule::from_str(&text) {
+                Ok(r) => r,
+                Err(_) => continue,
+            };
+            let dummy = Exchange { line: format!("fixed-pairs {}", hash_str(&text)), imp: String::new(), model: String::new(), agree: true, supported: false };
+            for mask in 0..16u64 {
+                let rl = if mask == 0 { base.clone() } else { base.clone().optimise(crate::implside::opts(mask)) };
+                for (a, b) in pairs.iter() {
+                    ctx.evaluations += 1;
+                    ctx.nontrivial.insert(hash_str(&format!("{}{}{}", text, a, b)));
+                    let (ya, yb): (Yaml, Yaml) = (serde_yaml::from_str(a).unwrap(), serde_yaml::from_str(b).unwrap());
+                    let (ja, jb): (serde_json::Value, serde_json::Value) = (serde_yaml::from_str(a).unwrap(), serde_yaml::from_str(b).unwrap());
+                    let as_map = |j: &serde_json::Value| -> HashMap<String, serde_json::Value> { j.as_object().map(|o| o.iter().map(|(k, v)| (k.clone(), v.clone())).collect()).unwrap_or_default() };
+                    let reps = [
+                        ("YAML mapping", rl.matches(ya.as_mapping().unwrap()), rl.matches(yb.as_mapping().unwrap())),
+                        ("serde_json value", rl.matches(&ja), rl.matches(&jb)),
+                        ("HashMap<String, serde_json::Value>", rl.matches(&as_map(&ja)), rl.matches(&as_map(&jb))),
+                    ];
+                    for (name, va, vb) in reps.iter() {
+                        if va != vb || *va != reps[0].1 {
+                            ctx.violation("oracle", &format!("mask {}: documents {} and {} differ only in fields no predicate addresses, yet as {} they give {} and {} (YAML mapping: {})", mask, a, b, name, va, vb, reps[0].1), &dummy, &text, true);
+                            break;
+                        }
+                    }
+                }
+            }
+        }
+    }
+}
+
 // ---------------------------------------------------------------------------------- C04
 
 pub const SPECIALS: &[&str] = &["\"", "'", "i", "?", "*", "(", ")", "[", "=", ">", ".", "-", " ", ",", "\u{b}", "\u{a0}", "a", "1", "\\", "#", "é", "²"];
@@ -508,6 +583,12 @@ pub fn run_c04(ctx: &mut Ctx, _known: &Known) {
     ctx.exhaustive = true;
     for s in &strings {
         layer_checks(ctx, s);
+    }
+    // digits that are numeric for Unicode but not ASCII, next to ASCII digits, signs and points
+    for u in ["²", "٣", "①", "½", "５", "৩", "Ⅷ", "〇", "⁵", "१", "๓", "𝟙"] {
+        for t in ["1{}", "-{}", "{}1", "{}", "1.{}", "1.5{}", "of(A, 1{})", "of(A, {})", "A and 1{}", "int(f) > 5{}", "int(f) > {}", "foo 5{}", "12{}3", "{}{}", "-1{}", "1{}.5", "flt(f) >= 1.{}", "A{}", "{}A", "=1{}", ">={}", "[{}]", "f[1{}]", "f[{}]"] {
+            layer_checks(ctx, &t.replace("{}", u));
+        }
     }
     // keyword-adjacent and random UTF-8 strings
     let n = budget(ctx, 1500, 40000);
